@@ -7,11 +7,21 @@ pub open spec fn tri(k: int) -> int { k * (k + 1) / 2 }
 
 pub proof fn lemma_shr1(x: usize) ensures x >> 1 == x / 2 { assert(x >> 1 == x / 2) by (bit_vector); }
 
+// k (k + 1) is even: by induction (asking the nonlinear solver for the parity directly depends on its random seed)
+pub proof fn lemma_consec_even(k: int) requires k >= 0 ensures k * (k + 1) % 2 == 0 decreases k
+{
+    if k > 0 {
+        lemma_consec_even(k - 1);
+        assert(k * (k + 1) == (k - 1) * k + 2 * k) by (nonlinear_arith);
+    } else {
+        assert(k * (k + 1) == 0) by (nonlinear_arith) requires k == 0;
+    }
+}
 pub proof fn lemma_tri_step(k: int) requires k >= 0 ensures tri(k + 1) == tri(k) + k + 1, tri(k) >= 0
 {
     assert(k * (k + 1) >= 0) by (nonlinear_arith) requires k >= 0;
     assert((k + 1) * (k + 2) == k * (k + 1) + 2 * (k + 1)) by (nonlinear_arith);
-    assert(k * (k + 1) % 2 == 0) by (nonlinear_arith) requires k >= 0;
+    lemma_consec_even(k);
 }
 pub proof fn lemma_tri_mono(a: int, b: int) requires 0 <= a <= b ensures tri(a) <= tri(b) decreases b - a
 {
@@ -44,10 +54,6 @@ pub proof fn lemma_isqrt_bounds(r: int, v: int)
     assert(r < 0x1_0000_0000) by (nonlinear_arith) requires r * r <= v, v < 0x20_0000_0000_0000, r >= 0;
     if v >= 9 { assert(r >= 3) by (nonlinear_arith) requires (r + 1) * (r + 1) > v, v >= 9, r >= 0; }
 }
-pub proof fn lemma_consec_even(k: int) requires k >= 0 ensures k * (k + 1) % 2 == 0
-{
-    assert(k * (k + 1) % 2 == 0) by (nonlinear_arith) requires k >= 0;
-}
 
 //@fn file=src/algebra/scalarmath.rs name=triangular_number ret=r
 //@contract
@@ -71,7 +77,7 @@ pub proof fn lemma_consec_even(k: int) requires k >= 0 ensures k * (k + 1) % 2 =
         lemma_shr1((k * (k + 3)) as usize);
         lemma_tri_step(k as int);
         assert((k + 1) * (k + 2) == k * (k + 3) + 2) by (nonlinear_arith);
-        assert(k * (k + 1) % 2 == 0) by (nonlinear_arith) requires k >= 0;
+        lemma_consec_even(k as int);
     }
 //@end
 
